@@ -543,13 +543,20 @@ def c16_sequence(rec, rng, kind, length, case):
             shadow = list(want)
         elif kind != "emg" and r < 0.72 and shadow:
             # the assigned iterable is derived lazily from the block's own list
-            how = rng.choice(["same-list", "reversed", "generator-filter", "slice-view"])
+            how = rng.choice(["same-list", "reversed", "generator-filter", "slice-view", "block-itself", "lazy-view-of-block"])
             steps.append(f"tracks=<{how} of own tracks>")
             own = blk.tracks
             if how == "same-list":
                 want, it = list(own), own
             elif how == "reversed":
                 want, it = list(reversed(own)), reversed(own)
+            elif how == "block-itself":          # a block is an iterable of its tracks
+                want, it = list(own), blk
+            elif how == "lazy-view-of-block":    # an iterable that asks the block for its tracks only when iterated
+                class _Lazy:
+                    def __init__(self, b_): self.b = b_
+                    def __iter__(self): return iter(self.b.tracks)
+                want, it = list(own), _Lazy(blk)
             elif how == "generator-filter":
                 keep = set(ident(own)[::2])
                 want, it = [t_ for t_ in own if id(t_) in keep], (t_ for t_ in own if id(t_) in keep)
@@ -659,8 +666,10 @@ def c18_block(rec, rng, kind, case):
         def msk():   # fully present, with gaps, or wholly missing tracks
             r_ = rng.random()
             return [True] * n if r_ < 0.5 else ([False] * n if r_ < 0.7 else gen.rmask(rng, n))
-        for lb in labels:
-            blk.addSignal(lib.build_item(kind, {"label": lb, "frames": gen.rframes(rng, msk(), 1)}, {}))
+        chans = rng.sample(range(0, 60), len(labels)) if rng.random() < 0.5 else None   # explicit channels, any order
+        for q_, lb in enumerate(labels):
+            it_ = lib.build_item(kind, {"label": lb, "frames": gen.rframes(rng, msk(), 1)}, {})
+            blk.addSignal(it_, channel=chans[q_]) if chans else blk.addSignal(it_)
     else:
         def msk():
             r_ = rng.random()
@@ -884,6 +893,8 @@ def mutable_reach(root):
                     stack.append(getattr(o, sl))
         elif isinstance(o, memoryview):
             try:
+                if not o.readonly:       # a writeable view of some exporter (bytearray, BytesIO buffer, mmap): that
+                    mut[id(o.obj)] = o.obj   # exporter is shared mutable state of everything viewing it
                 stack.append(o.obj)
             except Exception:
                 pass
@@ -1049,6 +1060,11 @@ def _mutate(kind, b, rng):
         return r_[0]
     its = _items(kind, b)
     r = rng.random()
+    if kind in ("data3D", "force3D") and rng.random() < 0.12:
+        arr_ = getattr(b, rng.choice(["volume", "rotationMatrix", "translationVector"]), None)
+        if isinstance(arr_, np.ndarray) and arr_.flags.writeable and arr_.size:
+            arr_.flat[0] = float(arr_.flat[0]) + 9.0
+            return "edit-header-array-in-place"
     if r < 0.4 or not its:
         if kind == "optical":
             b.channels.append(lib.build_item("optical", {"index": 1, "lens": "L", "type": "T", "name": "N", "vp": [1, 2, 3, 4]}, {}))
@@ -1159,6 +1175,16 @@ def shard_c20(desc, rec):
                         continue
                     d1, d2 = got
                     rec.count("c20:file-read-twice")
+                elif isinstance(x, bytes) and rng.random() < 0.4:
+                    # ... from one stream, rewound in between (what a caller holding a BytesIO would do)
+                    from io import BytesIO as _B
+                    what = "decode-twice(one rewound stream)"
+                    steps[-1] = what
+                    st_ = _B(x)
+                    d1 = lib.BLOCK_CLASS[kind]._build(st_, lib.fmt_of(src))
+                    st_.seek(0)
+                    d2 = lib.BLOCK_CLASS[kind]._build(st_, lib.fmt_of(src))
+                    rec.count("c20:decode-twice-one-stream")
                 else:
                     d1, _ = lib.dec(kind, lib.fmt_of(src), x)
                     d2, _ = lib.dec(kind, lib.fmt_of(src), x)
@@ -1171,6 +1197,29 @@ def shard_c20(desc, rec):
                     _SPEC[id(d1)] = (d1, _copy.deepcopy(ent[1])); _SPEC[id(d2)] = (d2, _copy.deepcopy(ent[1]))
                 pool.extend([d1, d2])
                 pool = pool[-4:]
+            elif r < 0.5 and kind in ("emg", "platData", "platCal") and len(pool) >= 2:
+                # one item object bound into a second block, under another channel: the first block keeps its own pairing
+                a_, b_ = rng.sample(range(len(pool)), 2)
+                its_a = _items(kind, pool[a_])
+                if pool[a_] is pool[b_] or not its_a:
+                    continue
+                it_ = rng.choice(its_a)
+                used_b = observed_pairs(kind, pool[b_])[0] or []
+                ch_ = next(c_ for c_ in range(40, 200) if c_ not in used_b)
+                what = f"#{b_}.add(<item of #{a_}>, channel={ch_})"
+                steps.append(what)
+                touched = pool[b_]
+                tainted.update((id(pool[a_]), id(pool[b_])))
+                try:
+                    if kind == "emg":
+                        if it_.nSamples != pool[b_].nSamples:
+                            continue
+                        pool[b_].addSignal(it_, channel=ch_)
+                    else:
+                        pool[b_].add_platform(it_, channel=ch_)
+                    rec.count("c20:item-bound-into-a-second-block")
+                except Exception as e:
+                    steps.append(f"refused:{type(e).__name__}")
             elif r < 0.5 and kind in ("data3D", "force3D") and len(pool) >= 2:
                 # hand one block's track list to another block's setter: afterwards they still are two blocks
                 a_, b_ = rng.sample(range(len(pool)), 2)
